@@ -23,7 +23,7 @@ if not patch.strip():
     sys.exit("no change applied in the worktree")
 (out / "patch.diff").write_text(patch)
 r1 = sh(f"/venv/bin/python {out}/demo.py")
-r2 = sh("/venv/bin/python -m pytest -q -p no:cacheprovider -n 8 -x 2>&1 | tail -1")
+r2 = sh("/venv/bin/python -m pytest -q -p no:cacheprovider -n %s -x 2>&1 | tail -1" % os.environ.get("KEEP_SUITE_N", "8")) if True else ("")
 # (no git stash here: the stash stack is shared by all worktrees of a repository, parallel jobs would swap their changes)
 sh("git checkout -- src")
 try:
